@@ -502,3 +502,97 @@ example : validateChunk 4 64 true [[[64, 97], [65], [45], [73]]] = some 2 := by 
 example : reported 4 64 true 0 [[[[64, 97], [65], [43], [73]]], [[[64, 98], [67], [45], [73]]]] = some 6 := by decide
 
 end C15
+
+namespace C15
+open C01
+
+theorem splitBy_flatten {α} : ∀ (sizes : List Nat) (l : List α), sizes.sum = l.length → (splitBy sizes l).flatten = l := by
+  intro sizes
+  induction sizes with
+  | nil => intro l h; simp at h; simp [splitBy, List.length_eq_zero_iff.mp h.symm]
+  | cons n ns ih =>
+    intro l h
+    simp only [List.sum_cons] at h
+    simp only [splitBy, List.flatten_cons]
+    rw [ih (l.drop n) (by simp; omega)]
+    exact List.take_append_drop n l
+
+theorem countNL_flatten (cs : List Bytes) : countNL cs.flatten = (cs.map countNL).sum := by
+  induction cs with
+  | nil => rfl
+  | cons c cs ih => simp [countNL, List.count_append] at ih ⊢; omega
+
+/-- **C15.readValidateRows_line** — delimited formats end to end over the C01 reader model: for EVERY
+file (any bytes), every chunk size `k ≥ 1`, both reader modes and every pattern of parsing / non-parsing
+rows `flags = good ++ false :: rest` (`good` all parse, `rest` arbitrary), the reported line is
+`good.length`: the first offending row counted from the start of the data. -/
+theorem readValidateRows_line (mode : Mode) (file : Bytes) (k : Nat) (hk : 0 < k)
+    (good rest : List Bool) (hgood : ∀ b ∈ good, b = true)
+    (hlen : (good ++ false :: rest).length = countNL (norm file)) :
+    readValidateRows (good ++ false :: rest) mode file k = some good.length := by
+  unfold readValidateRows
+  have h := readAll_bytes_kLine 1 (by omega) mode file (Nat.one_dvd _) k hk
+  have hsum : ((readAll (Fmt.kLine 1) true mode file k).map countNL).sum = (good ++ false :: rest).length := by
+    rw [← countNL_flatten, h.1, hlen]
+  have := line_number_delimited _ good rest 0 (splitBy_flatten _ _ hsum) hgood
+  simpa using this
+
+end C15
+
+namespace C15
+open C01
+
+theorem reportedRows_none_iff : ∀ (cs : List (List Bool)) (L : Nat),
+    reportedRows L cs = none ↔ ∀ b ∈ cs.flatten, b = true := by
+  intro cs
+  induction cs with
+  | nil => intro L; simp [reportedRows]
+  | cons c cs ih =>
+    intro L
+    unfold reportedRows
+    cases hfb : firstBad id c with
+    | some i =>
+      simp only [reduceCtorEq, List.flatten_cons, List.mem_append, false_iff]
+      intro hall
+      have := firstBad_all_good id c (fun b hb => by simpa using hall b (Or.inl hb))
+      rw [hfb] at this; cases this
+    | none =>
+      have hc := (firstBad_none_iff id c).mp hfb
+      simp only [ih, List.flatten_cons, List.mem_append]
+      constructor
+      · intro h b hb
+        rcases hb with hb | hb
+        · simpa using hc b hb
+        · exact h b hb
+      · intro h b hb; exact h b (Or.inr hb)
+
+/-- a delimited file is read without a parse error exactly when every row parses — for every chunk size -/
+theorem readValidateRows_none_iff (flags : List Bool) (mode : Mode) (file : Bytes) (k : Nat) (hk : 0 < k)
+    (hlen : flags.length = countNL (norm file)) :
+    readValidateRows flags mode file k = none ↔ ∀ b ∈ flags, b = true := by
+  unfold readValidateRows
+  have h := readAll_bytes_kLine 1 (by omega) mode file (Nat.one_dvd _) k hk
+  have hsum : ((readAll (Fmt.kLine 1) true mode file k).map countNL).sum = flags.length := by
+    rw [← countNL_flatten, h.1, hlen]
+  rw [reportedRows_none_iff, splitBy_flatten _ _ hsum]
+
+/-- **C15.rows_chunk_size_independent** — for every delimited file and every pattern of parsing rows, the
+outcome (success or the reported row) is the same for any two chunk sizes and reader modes. -/
+theorem rows_chunk_size_independent (flags : List Bool) (file : Bytes) (hlen : flags.length = countNL (norm file))
+    (m₁ m₂ : Mode) (k₁ k₂ : Nat) (h₁ : 0 < k₁) (h₂ : 0 < k₂) :
+    readValidateRows flags m₁ file k₁ = readValidateRows flags m₂ file k₂ := by
+  by_cases hall : ∀ b ∈ flags, id b = true
+  · have hall' : ∀ b ∈ flags, b = true := fun b hb => by simpa using hall b hb
+    rw [(readValidateRows_none_iff flags m₁ file k₁ h₁ hlen).mpr hall',
+        (readValidateRows_none_iff flags m₂ file k₂ h₂ hlen).mpr hall']
+  · obtain ⟨good, bad, rest, hE, hgood, hb⟩ := exists_first_bad id flags hall
+    have hbf : bad = false := by simpa using hb
+    subst hbf
+    have hg : ∀ b ∈ good, b = true := fun b hb' => by simpa using hgood b hb'
+    rw [hE] at hlen ⊢
+    rw [readValidateRows_line m₁ file k₁ h₁ good rest hg hlen, readValidateRows_line m₂ file k₂ h₂ good rest hg hlen]
+
+example : readValidateRows [true, false, true] .seek [97, 10, 98, 10, 99] 2 = some 1 ∧
+    readValidateRows [true, false, true] .carry [97, 10, 98, 10, 99] 100 = some 1 := by decide
+
+end C15
